@@ -43,6 +43,7 @@ class Exec:
         self.p = None
         self.errf = None
         self.nscripts = 0
+        self.owner = os.getpid()
 
     def start(self):
         env = dict(os.environ)
@@ -149,7 +150,10 @@ _worker_state = {}
 def _call(args):
     fn, chunk, extra = args
     try:
-        return fn(chunk, *extra)
+        r = fn(chunk, *extra)
+        import pickle
+        pickle.dumps(r)   # an unpicklable result would hang the pool instead of failing
+        return r
     except Crash as c:
         return {'crash': {'msg': str(c), 'stderr': c.stderr[-6000:], 'script': c.script[-400:]}}
     except Exception:
@@ -187,8 +191,10 @@ def worker_exec(cfg, prog='cifx'):
     """per-process cached executor"""
     k = (cfg, prog)
     e = _worker_exec.get(k)
-    if e is None:
+    if e is None or e.owner != os.getpid():
+        # an executor inherited through fork() belongs to the parent process: never share its pipes
         e = Exec(exe(cfg, prog))
+        e.owner = os.getpid()
         _worker_exec[k] = e
     return e
 
@@ -248,28 +254,31 @@ class Report:
               'assumptions': list(assumptions) + ['ICU 72 and SQLite 3.40 as installed are trusted',
                                                   'x86-64, IEEE-754 doubles, glibc'],
               'wall_s': round(wall, 2), 'violations': nviol, 'tree': _build.tree_hash()}
-        tmp = os.path.join(VERIF, 'evidence', self.pid + '.json.tmp')
-        json.dump(ev, open(tmp, 'w'), indent=1, ensure_ascii=True, default=str)
-        os.replace(tmp, os.path.join(VERIF, 'evidence', self.pid + '.json'))
+        if not os.environ.get('VERIF_NO_EVIDENCE'):   # set only by bin/seedtest (runs against a deliberately broken tree)
+            tmp = os.path.join(VERIF, 'evidence', self.pid + '.json.tmp')
+            json.dump(ev, open(tmp, 'w'), indent=1, ensure_ascii=True, default=str)
+            os.replace(tmp, os.path.join(VERIF, 'evidence', self.pid + '.json'))
         for kid, (k, n) in sorted(self.known_hits.items()):
             print('KNOWN-FINDING: property=%s %s (%s; %d cases this run)' % (self.pid, k['what'], kid, n))
         if nviol:
             d = os.path.join(VERIF, 'replays', self.pid)
             os.makedirs(d, exist_ok=True)
-            seen = set()
-            for sig, detail in self.violations[:50]:
-                if detail is None:
+            seen = {}
+            for sig, detail in self.violations:
+                key = json.dumps(sig, sort_keys=True, default=str)
+                if key in seen:
+                    seen[key][0] += 1
+                    continue
+                if detail is None or len(seen) >= 40:
                     continue
                 body = json.dumps({'property': self.pid, 'signature': sig, 'detail': detail}, indent=1, default=str)
                 h = hashlib.sha1(body.encode()).hexdigest()[:12]
                 path = os.path.join(d, h + '.json')
                 open(path, 'w').write(body)
-                key = json.dumps(sig, sort_keys=True, default=str)
-                if key in seen and len(seen) > 20:
-                    continue
-                seen.add(key)
+                seen[key] = [1, path]
+            for key, (n, path) in seen.items():
                 print('VIOLATION property=%s replay=%s' % (self.pid, path))
-                print('  signature: %s' % key)
+                print('  signature: %s  (%d cases)' % (key, n))
             print('%s %s: %d violation(s) in %.1fs' % (self.pid, self.tier, nviol, wall))
             return 1
         print('%s %s: held on everything explored (%.1fs) %s' % (
